@@ -276,7 +276,7 @@ T.update({
   summary="udp start-up validation: `response_peer_len = if config.network.use_ipv4 { 6 } else { 18 }` - a dual-stack tracker validates max_response_peers with 6-byte peers and accepts up to 1362 instead of 454",
   needs="use_ipv4 and use_ipv6 both on (default), max_response_peers >= 456, more than 454 IPv6 peers in one torrent and an IPv6 announce asking for all: the 8228-byte reply does not fit the 8192-byte buffer and is dropped",
   demo="demo/crates/udp/tests/seeded_demo.rs",
-  caught_by=[caught("C18", "configs", "reply-dropped")],
+  caught_by=[caught("C18", "configs", "reply-dropped", note="missed at first: every UDP configuration had both address families on, where the 18-byte peer size makes the tracker refuse all values near the IPv4 boundaries (338 / 1362), so the IPv4 arithmetic was never exercised. Caught after the IPv4 windows were run against trackers with use_ipv6 = false")],
  ),
  "C19b": dict(
   worktree="/tmp/seed4-C19",
@@ -469,7 +469,7 @@ T.update({
   summary="udp run(): the start-up validation of max_response_peers computes the largest announce reply with the 8-byte scrape header instead of the 20-byte announce header",
   needs="max_response_peers = 1363 (mio, IPv4) or the corresponding boundary values for IPv6 / io_uring: accepted, and the full reply is 12 bytes too long for the buffer",
   demo="demo/crates/udp/tests/seeded_demo.rs",
-  caught_by=[caught("C18", "configs", "reply-dropped")],
+  caught_by=[caught("C18", "configs", "reply-dropped", note="missed at first: every UDP configuration had both address families on, where the 18-byte peer size makes the tracker refuse all values near the IPv4 boundaries (338 / 1362), so the IPv4 arithmetic was never exercised. Caught after the IPv4 windows were run against trackers with use_ipv6 = false")],
  ),
  "C19d": dict(
   worktree="/tmp/seed7-C19",
